@@ -101,6 +101,7 @@ impl Check for C01 {
         crate::prop::run(ctx, "general", cases, tape_strategy(700), |ctx, tape| {
             check_case(ctx, tape, PROFILE)
         });
+        tape_triage(ctx, check_case);
     }
     fn replay(&self, ctx: &mut ShardCtx, _stage: &str, input: &J) -> Outcome {
         if let Some(src) = input.get("raw_source").and_then(J::as_str) {
